@@ -130,6 +130,15 @@ func randFullConfig(r *Rng) (g.SimulatorConfig, asm.Config) {
 		d = asm.D88
 	}
 	ac := randAsmConfig(r, d)
+	if r.Chance(1, 25) {
+		// core sizes around the widths of the integer types involved (a core size is an unsigned 64-bit number;
+		// those up to 2^63-1 are representable in every signed intermediate)
+		ac.CoreSize = []int{1<<31 - 1, 1 << 31, 1<<32 + 1, 1 << 62, 1<<63 - 1<<31 + 5, 1<<63 - 1<<30, 1<<63 - 2, 1<<63 - 1}[r.Intn(8)]
+		if ac.Length > 300 {
+			ac.Length = 100
+		}
+		ac.Distance = 100
+	}
 	if r.Chance(1, 5) {
 		ac.Length = []int{0, 1, 5}[r.Intn(3)]
 		if ac.Length > ac.CoreSize {
